@@ -813,7 +813,9 @@ impl Writer for UperWriter {
 
     #[inline]
     fn write_null<C: null::Constraint>(&mut self, _value: &Null) -> Result<(), Self::Error> {
-        Ok(())
+        // no content bits, but it still is a field of the enclosing sequence
+        self.write_bit_field_entry(false, true)?;
+        self.with_buffer(|_w| Ok(()))
     }
 }
 
@@ -1615,7 +1617,9 @@ impl<B: ScopedBitRead> Reader for UperReader<B> {
 
     #[inline]
     fn read_null<C: null::Constraint>(&mut self) -> Result<Null, Self::Error> {
-        Ok(Null)
+        // no content bits, but it still is a field of the enclosing sequence
+        let _ = self.read_bit_field_entry(false)?;
+        self.with_buffer(|_r| Ok(Null))
     }
 }
 
